@@ -89,9 +89,32 @@ Definition rat_eq (a b : Z * Z) : bool := fst a * snd b =? fst b * snd a.
 Definition rat_close (v x : Z * Z) : bool :=
   Z.abs (fst v * snd x - fst x * snd v) * 2 ^ 40 <=? Z.abs (fst x) * snd v.
 
-(** |v - x| <= |x| * 2^-51 : at most about one unit in the last place of an f64 *)
-Definition rat_ulp (v x : Z * Z) : bool :=
-  Z.abs (fst v * snd x - fst x * snd v) * 2 ^ 51 <=? Z.abs (fst x) * snd v.
+(** Round a rational to binary64 (round to nearest, ties to even; normal range
+    only, which covers every uptime): (signed 53-bit mantissa, exponent).
+    ryu (serde_json) and Rust's Display may print DIFFERENT shortest decimals
+    for the same f64 (e.g. 1650177722877179.25 as ...179.2 and ...179.3), so
+    "the number the daemon sent" is compared as an f64, not as a decimal. *)
+Definition to_b64 (q : Z * Z) : Z * Z :=
+  let (n, d) := q in
+  if n =? 0 then (0, 0) else
+  let a := Z.abs n in
+  let e0 := Z.log2 a - Z.log2 d - 52 in
+  let scaled (e : Z) := if 0 <=? e then (a, d * 2 ^ e) else (a * 2 ^ (- e), d) in
+  let e := (let (x, y) := scaled e0 in if x <? y * 2 ^ 52 then e0 - 1 else
+                                       if y * 2 ^ 53 <=? x then e0 + 1 else e0) in
+  let (x, y) := scaled e in
+  let qf := x / y in
+  let r := x mod y in
+  let m := if 2 * r <? y then qf
+           else if y <? 2 * r then qf + 1
+           else if Z.even qf then qf else qf + 1 in
+  let (m, e) := if m =? 2 ^ 53 then (2 ^ 52, e + 1) else (m, e) in
+  ((if n <? 0 then - m else m), e).
+
+Definition same_f64 (a b : Z * Z) : bool :=
+  let (m1, e1) := to_b64 a in
+  let (m2, e2) := to_b64 b in
+  (m1 =? m2) && (e1 =? e2).
 
 (** * What every served sample must mean (from the property text and the help texts) *)
 Inductive quantity :=
@@ -99,7 +122,7 @@ Inductive quantity :=
 | QBool (b : bool)                (* "1 if ..., 0 otherwise" / "Whether ...": true as 1 *)
 | QSecondsInt (z : Z)             (* a whole number of seconds *)
 | QNanosBits (bits frac : Z)      (* a time span of bits / 2^frac nanoseconds *)
-| QSecondsTok (t : chars).        (* seconds; equal to the number the daemon sent (token) *)
+| QSecondsTok (t : chars).        (* seconds; the same f64 as the number the daemon sent (token) *)
 
 Record family := mkFam { f_base : string; f_samples : list (labels * quantity) }.
 
@@ -167,7 +190,7 @@ Definition expected_families (s : obs_state) : list family :=
 
 (** * Judging one served sample.  Result: -1 fine; 1 = boolean published
     inverted (F10); 2 = a time in seconds published under a _nanoseconds name
-    (F11); 4 = uptime off by one unit in the last place; 0 = any other violation. *)
+    (F11) - both only diagnostic, nothing is excused; 0 = any other violation. *)
 Definition u_none : Z := 0.
 Definition u_seconds : Z := 1.
 Definition u_nanos : Z := 2.
@@ -201,8 +224,7 @@ Definition judge (base : string) (q : quantity) (u : Z) (v : chars) : Z :=
           match parse_dec t with
           | Some dt =>
               if u =? u_seconds then
-                (if rat_eq r (rat_of_dec dt) then -1
-                 else if rat_ulp r (rat_of_dec dt) then 4 else 0)
+                (if same_f64 r (rat_of_dec dt) then -1 else 0)
               else if u =? u_nanos then
                 (if rat_eq r (fst (rat_of_dec dt) * 10 ^ 9, snd (rat_of_dec dt)) then -1 else 0)
               else 0
@@ -315,8 +337,7 @@ Definition response_findings (s : obs_state) (js resp : chars) : list Z :=
   match parse_http resp with
   | None => [0]
   | Some h =>
-      if chars_eq (h_status h) (s2c "HTTP/1.1 500 Internal Server Error")
-         && (16384 <? Z.of_nat (length js)) then [8] else
+
       let status_ok := chars_eq (h_status h) (s2c "HTTP/1.1 200 OK") in
       let len_ok := match header "content-length" h with
                     | Some v => chars_eq v (print_int (Z.of_nat (length (h_body h))))
@@ -354,24 +375,10 @@ Definition findings (c : case) : list Z :=
 Definition ok_C19 (c : case) : bool :=
   match findings c with [] => true | _ => false end.
 
-(** Known findings (see /verif/known_findings.txt), as a bit mask:
-    1 : boolean metrics published inverted (F10)
-    2 : offset_from_master / mean_delay: seconds under a _nanoseconds name (F11)
-    4 : uptime_seconds changed by one unit in the last place in the JSON hop
-    8 : observation message longer than 16 KiB: answered with 500
-    The mask is returned only when EVERY finding of the case is one of these;
-    any other violation makes the case an unlisted one (0). *)
-Definition kf_C19 (c : case) : Z :=
-  let f := findings c in
-  match f with
-  | [] => 0
-  | _ =>
-      if existsb (fun x => negb ((x =? 1) || (x =? 2) || (x =? 4) || (x =? 8))) f then 0
-      else (if existsb (fun x => x =? 1) f then 1 else 0)
-           + (if existsb (fun x => x =? 2) f then 2 else 0)
-           + (if existsb (fun x => x =? 4) f then 4 else 0)
-           + (if existsb (fun x => x =? 8) f then 8 else 0)
-  end.
+(** No known finding is left (F10, F11, the one-ulp uptime and the 16 KiB read
+    are repaired): every rejection is a violation.  The codes 1 / 2 in
+    [findings] only tell a regression of F10 / F11 apart in a replay file. *)
+Definition kf_C19 (c : case) : Z := 0.
 
 (** * Correspondence: the model reproduces the implementation's bytes *)
 Definition agree_C19 (c : case) : bool :=
